@@ -1308,3 +1308,361 @@ def soak(hc, plan, workdir, rng, runs) -> list[str]:
             bad += b
             break
     return bad
+
+
+# --------------------------------------------------------------------------- correspondence drivers
+
+def check_traces(ck, cases, tag) -> list[int]:
+    """Indices of runs whose observed trace is NOT a path of the model LTS with the same observations."""
+    import concurrent.futures as cf
+    chunks = [(i, cases[i:i + 100]) for i in range(0, len(cases), 100)]
+    failing = []
+
+    def one(arg):
+        off, chunk = arg
+        rc, out = ck.coq_eval(cases_text(chunk), f"{tag}_{off}")
+        if rc != 0:
+            raise RuntimeError(f"case file {tag}_{off} did not compile:\n{out[-3000:]}")
+        return [off + j for j in common.parse_nat_list(out)]
+    with cf.ThreadPoolExecutor(max_workers=4) as ex:
+        for r in ex.map(one, chunks):
+            failing += r
+    return failing
+
+
+def function_grid(ck) -> list[str]:
+    """The generated budget arithmetic against the real _ByteBudget / _reservation_bytes (single thread,
+    non-blocking calls only), compared inside Coq."""
+    import onnx_ir as ir
+    from onnx_ir import external_data as ed
+    rows = []
+    for cap in [-3, 0, 1, 2, 5, 8, 1 << 30]:
+        for n1 in [-2, 0, 1, 2, 5, 8, 9, 100, (1 << 30) + 1]:
+            b = ed._ByteBudget(cap)
+            t1 = b.acquire(n1)
+            s1 = (b._in_flight, bool(b._oversized_active))
+            # a second, independent reservation that fits (never blocks): 0 bytes, or an oversized one if none is active
+            n2 = 0 if s1[1] else max(cap, 1) + 7
+            t2 = b.acquire(n2)
+            s2 = (b._in_flight, bool(b._oversized_active))
+            b.release(t1)
+            s3 = (b._in_flight, bool(b._oversized_active))
+            b.release(t2)
+            s4 = (b._in_flight, bool(b._oversized_active))
+            rows.append((cap, b._capacity, n1, t1, s1, n2, t2, s2, s3, s4))
+    mem = ir.Tensor(np.zeros(3, dtype=np.uint8))
+    ext = ir.ExternalTensor("x.bin", 0, 3, ir.DataType.UINT8, shape=ir.Shape([3]), name="e", base_dir=".")
+    rrows = []
+    from onnx_ir import _core
+    for ln in [0, 1, 5, REAL_CHUNK - 1, REAL_CHUNK, REAL_CHUNK + 1, 5 * REAL_CHUNK]:
+        rrows.append((False, ln, _core._EXTERNAL_TENSOR_COPY_CHUNK_SIZE, ed._reservation_bytes(mem, ln)))
+        rrows.append((True, ln, _core._EXTERNAL_TENSOR_COPY_CHUNK_SIZE, ed._reservation_bytes(ext, ln)))
+    st = lambda s: f"({cZ(s[0])}, {cbool(s[1])})"  # noqa: E731
+    text = (CASE_HEADER + "Open Scope Z_scope.\n"
+            "Definition st := (Z * bool)%type.\n"
+            "Definition st_eqb (a b : st) := Z.eqb (fst a) (fst b) && Bool.eqb (snd a) (snd b).\n"
+            "Definition acq (C : Z) (s : st) (n : Z) : Z * st :=\n"
+            "  let a := acquire_amount n in\n"
+            "  if acquire_is_oversized a C then (oversized_token, (fst s, true))\n"
+            "  else (a, (acquire_regular_update (fst s) a, snd s)).\n"
+            "Definition rel (s : st) (r : Z) : st :=\n"
+            "  if release_is_oversized r then (fst s, false) else (release_regular_update (fst s) r, snd s).\n"
+            "Definition rows : list (Z * Z * Z * Z * st * Z * Z * st * st * st) :=\n  "
+            + clist(f"({cZ(a)}, {cZ(b)}, {cZ(c)}, {cZ(d)}, {st(e)}, {cZ(f)}, {cZ(g)}, {st(h)}, {st(i)}, {st(j)})"
+                    for a, b, c, d, e, f, g, h, i, j in rows) + ".\n"
+            "Definition ok (x : Z * Z * Z * Z * st * Z * Z * st * st * st) : bool :=\n"
+            "  let '(cap, C, n1, t1, s1, n2, t2, s2, s3, s4) := x in\n"
+            "  let '(t1', s1') := acq C (0, false) n1 in let '(t2', s2') := acq C s1' n2 in\n"
+            "  Z.eqb (budget_capacity cap) C && Z.eqb t1 t1' && st_eqb s1 s1' && Z.eqb t2 t2' && st_eqb s2 s2'\n"
+            "  && st_eqb s3 (rel s2' t1') && st_eqb s4 (rel (rel s2' t1') t2').\n"
+            "Definition rrows : list (bool * Z * Z * Z) :=\n  "
+            + clist(f"({cbool(a)}, {cZ(b)}, {cZ(c)}, {cZ(d)})" for a, b, c, d in rrows) + ".\n"
+            "Definition rok (x : bool * Z * Z * Z) : bool :=\n"
+            "  let '(e, n, ch, r) := x in Z.eqb (reservation_bytes e n ch) r && Z.eqb ch EXTERNAL_TENSOR_COPY_CHUNK_SIZE.\n"
+            "Eval vm_compute in (failing ok rows ++ map (fun i => 1000 + i)%nat (failing rok rrows)).\n")
+    failing = ck.coq_failing(text, "cases_fn")
+    ck.count(len(rows) + len(rrows))
+    ck.hist("function_grid", "_ByteBudget acquire/release", len(rows))
+    ck.hist("function_grid", "_reservation_bytes", len(rrows))
+    return [json.dumps(rows[i] if i < 1000 else rrows[i - 1000], default=str) for i in failing]
+
+
+class Collector:
+    """Runs configurations through schedules; keeps oracle failures and a sample of traces for Coq."""
+
+    def __init__(self, ck, trace_budget):
+        self.ck = ck
+        self.wd = ck.scratch
+        self.trace_budget = trace_budget
+        self.cases = []
+        self.failures = []          # (hc, plan, res, bad)
+        self.plans = {}
+        self.nruns = 0
+
+    def plan(self, hc):
+        k = common.digest(hc)
+        if k not in self.plans:
+            no_fail = json.loads(json.dumps(hc))
+            self.plans[k] = reference(no_fail, self.wd)
+        return self.plans[k]
+
+    def record(self, hc, plan, res, kind, keep_trace=True):
+        ck = self.ck
+        self.nruns += 1
+        ck.count()
+        ck.hist("schedule_source", kind)
+        ck.hist("outcomes", str(res["outcome"]) if res["sched_outcome"] == "finished" else str(res["sched_outcome"][0]))
+        codes = {s[1] for s in res["steps"]}
+        for c in codes:
+            ck.hist("event_codes_seen_in_runs", str(c))
+        bad = oracle(hc, plan, res)
+        if bad:
+            self.failures.append((hc, plan, res, bad))
+        # non-trivial: contention actually happened (a thread slept on the budget, an oversized reservation,
+        # an error path with cancellation, or a two-level run)
+        if codes & {10, 11, 33} or plan["outer"]:
+            ck.nontriv((hc, res["choices"], res["picks"]))
+        if keep_trace and res["sched_outcome"] == "finished" and len(self.cases) < self.trace_budget:
+            self.cases.append((hc, plan, res))
+        return bad
+
+
+def replay_dict(hc, res, bad, kind="oracle"):
+    return {"kind": kind, "hc": hc, "choices": res.get("choices"), "picks": res.get("picks"), "failures": bad,
+            "how": "./check C09 --replay <this file> re-runs unload_from_model under the cooperative scheduler "
+                   "with exactly these scheduling choices and prints the oracle's verdict"}
+
+
+def shrink(ck, col, hc, rng, tries=150):
+    """Smaller configuration that still fails under some schedule (drop tensors, then failures)."""
+    def find(h):
+        try:
+            plan = reference(h, col.wd)
+        except Exception:  # noqa: BLE001
+            return None
+        if len(h["tensors"]) < 2:
+            return None
+        for i in range(tries):
+            chooser = pct_chooser(random.Random(rng.random())) if i % 2 else random_chooser(random.Random(rng.random()))
+            pr = random.Random(i)
+            res = run_coop(h, plan, col.wd, chooser, pickfn=lambda n, pr=pr: pr.randrange(n))
+            bad = oracle(h, plan, res)
+            if bad:
+                return res, bad
+        return None
+    cur, best = json.loads(json.dumps(hc)), None
+    changed = True
+    while changed:
+        changed = False
+        for i in range(len(cur["tensors"])):
+            h = json.loads(json.dumps(cur))
+            del h["tensors"][i]
+            objs = sorted({t["obj"] for t in h["tensors"]})
+            for t in h["tensors"]:
+                t["obj"] = objs.index(t["obj"])
+            r = find(h)
+            if r:
+                cur, best, changed = h, r, True
+                break
+    return cur, best
+
+
+def run(ck) -> None:
+    import logging
+    logging.disable(logging.WARNING)
+    ck.trust("Coq 8.16.1 kernel (coqc; vm_compute in case files; no native_compute)",
+             "tools/translate.py expression translator + the structural extraction in harness/props/c09.py::generate "
+             "(fail closed; output cross-checked against the real _ByteBudget on a grid)",
+             "harness/props/c09.py: cooperative threading/concurrent.futures runtime (Lock, Condition with explicit "
+             "wait set, ThreadPoolExecutor, as_completed), mapping of what happens to model events, Coq literal printer",
+             "modelled not verified: the GIL; contracts of threading.Lock / Condition / ThreadPoolExecutor / "
+             "as_completed (they are the LTS rules); OS semantics of several r+b descriptors writing disjoint ranges; "
+             "tensor tofile()/tobytes() (C04); files_lock critical section (no blocking call inside) taken as atomic; "
+             "callback=None paths")
+    ck.assumptions += ["CPython 3.12 threading semantics", "POSIX file semantics for pwrite-like seek+write on separate descriptors"]
+    ck.coverage["rule"] = ("a run is non-trivial when a thread slept on the budget condition, an oversized "
+                           "reservation was granted, a failure cancelled queued tasks, or the two-level (sharded) "
+                           "writer ran")
+    generate(ck)
+    ck.prove()
+    rng = ck.rng
+    thorough = ck.thorough
+    # 1. generated arithmetic vs the real budget object
+    try:
+        for m in function_grid(ck)[:5]:
+            ck.broken("correspondence:budget-arithmetic", m)
+    except RuntimeError as e:
+        ck.broken("correspondence:budget-arithmetic", str(e))
+    col = Collector(ck, trace_budget=400 if not thorough else 4000)
+    t_start = time.time()
+    # 2. corpus (hand-written edge cases and minimised past failures): schedule given or a few random ones
+    corpus_dir = os.path.join(common.CORPUS, "C09")
+    if os.path.isdir(corpus_dir):
+        for fn in sorted(os.listdir(corpus_dir)):
+            with open(os.path.join(corpus_dir, fn)) as f:
+                item = json.load(f)
+            hc = item["hc"]
+            plan = col.plan(hc)
+            scheds = [item["choices"]] if item.get("choices") else []
+            for ch in scheds:
+                col.record(hc, plan, run_coop(hc, plan, col.wd, replay_chooser(ch, first_chooser)), "corpus")
+            for i in range(6):
+                r = random.Random(i)
+                col.record(hc, plan, run_coop(hc, plan, col.wd, pct_chooser(r) if i % 2 else random_chooser(r),
+                                              pickfn=lambda n, r=r: r.randrange(n)), "corpus-random")
+    # 3. exhaustive exploration of small configurations (all schedules modulo state equality)
+    exhaust_specs = [("tiny", 1500)] * 2 if not thorough else [("tiny", 12000)] * 6 + [("small", 12000)] * 4
+    exhausted = []
+    for k, (size, cap_runs) in enumerate(exhaust_specs):
+        hc = gen_hc(rng, size, fail=(k % 2 == 1))
+        plan = col.plan(hc)
+        g = explore(hc, plan, col.wd, cap_runs)
+        n = 0
+        try:
+            while True:
+                res = next(g)
+                n += 1
+                col.record(hc, plan, res, "dfs", keep_trace=(n % 7 == 1))
+                if col.failures:
+                    break
+        except StopIteration as e:
+            exhausted.append({"config": describe(hc, plan), "runs": n, "exhaustive": bool(e.value)})
+        if col.failures:
+            break
+    ck.coverage["exhaustive_exploration"] = exhausted
+    # 4. random and PCT schedules over wider configurations
+    n_cfg = 90 if not thorough else 1500
+    per_cfg = 10 if not thorough else 40
+    for i in range(n_cfg):
+        if col.failures and len(col.failures) > 3:
+            break
+        hc = gen_hc(rng, "small" if i % 3 else "large")
+        try:
+            plan = col.plan(hc)
+        except Exception as e:  # noqa: BLE001
+            ck.broken("harness:reference-save-failed", f"{hc}: {e}")
+            continue
+        ck.hist("configs", f"shards={'1' if len(plan['names']) == 1 else '>1'} "
+                           f"inner={'serial' if all(plan['serial']) else 'parallel' if not any(plan['serial']) else 'mixed'}")
+        for j in range(per_cfg):
+            r = random.Random(rng.random())
+            chooser = pct_chooser(r, depth=r.choice([1, 2, 3, 5])) if j % 2 else random_chooser(r)
+            res = run_coop(hc, plan, col.wd, chooser, pickfn=lambda n, r=r: r.randrange(n))
+            col.record(hc, plan, res, "pct" if j % 2 else "random", keep_trace=(j < 4))
+        if i < 3:
+            ck.sample({"config": hc, "plan": {k: v for k, v in plan.items() if k != "files"},
+                       "last_trace_head": [[str(s[0]), s[1], s[2], list(s[3])] for s in res["steps"][:25]],
+                       "outcome": res["outcome"]})
+    ck.coverage["cooperative_runs"] = col.nruns
+    ck.coverage["cooperative_wall_s"] = round(time.time() - t_start, 1)
+    # 5. the recorded traces must be paths of the model LTS with the same observations
+    try:
+        mism = check_traces(ck, col.cases, "cases_tr") if col.cases else []
+    except RuntimeError as e:
+        mism = []
+        ck.broken("correspondence:lts-trace", str(e))
+    ck.coverage["traces_validated_against_impl"] = len(col.cases)
+    for i in mism[:3]:
+        hc, plan, res = col.cases[i]
+        k = accepted_prefix(ck, hc, plan, res)
+        ck.broken("correspondence:lts-trace", json.dumps({
+            "hc": hc, "choices": res["choices"], "picks": res["picks"], "accepted_steps": k,
+            "around": [[str(s[0]), s[1], s[2], list(s[3])] for s in res["steps"][max(0, k - 3):k + 2]],
+            "outcome": res["outcome"], "cb_log": [i for i, _ in res["cb_log"]]}))
+    # 6. real preemptive threads
+    soak_cfgs = 6 if not thorough else 60
+    soak_runs = 12 if not thorough else 60
+    for i in range(soak_cfgs):
+        hc = gen_hc(rng, "large")
+        plan = col.plan(hc)
+        bad = soak(hc, plan, col.wd, rng, soak_runs)
+        ck.count(soak_runs)
+        ck.hist("schedule_source", "real-threads", soak_runs)
+        if bad:
+            col.failures.append((hc, plan, {"choices": None, "picks": None, "real_threads": True}, bad))
+    # 7. known findings (none recorded for C09) and violations
+    for k in ck._known:
+        if k.get("status") == "known":
+            hc = k["witness"]["hc"]
+            plan = col.plan(hc)
+            res = run_coop(hc, plan, col.wd, replay_chooser(k["witness"].get("choices") or [], first_chooser))
+            if oracle(hc, plan, res):
+                ck.known_finding(k["key"], k["what"])
+            else:
+                ck.broken(f"known-finding-stale:{k['key']}", "the recorded witness no longer fails")
+    reported = set()
+    for hc, plan, res, bad in col.failures:
+        sig = tuple(sorted({b.split(":")[0][:60] for b in bad}))
+        if sig in reported:
+            continue
+        reported.add(sig)
+        small, best = (hc, None)
+        if not res.get("real_threads"):
+            small, best = shrink(ck, col, hc, rng)
+        if best:
+            ck.violation(replay_dict(small, best[0], best[1]))
+        else:
+            ck.violation(replay_dict(hc, res, bad, kind="oracle-real-threads" if res.get("real_threads") else "oracle"))
+    if ck.broken_items and not ck.violations:
+        search(ck, col)
+
+
+def search(ck, col) -> None:
+    """A proof obligation or the correspondence broke but no run violated the property yet: look harder
+    (more configurations, deeper PCT schedules, bounded DFS)."""
+    rng = ck.rng
+    deadline = time.time() + (60 if not ck.thorough else 900)
+    i = 0
+    while time.time() < deadline:
+        i += 1
+        hc = gen_hc(rng, rng.choice(["tiny", "small", "small", "large"]))
+        try:
+            plan = col.plan(hc)
+        except Exception:  # noqa: BLE001
+            continue
+        for j in range(25):
+            r = random.Random(rng.random())
+            chooser = pct_chooser(r, depth=r.choice([2, 3, 5, 8])) if j % 2 else random_chooser(r)
+            res = run_coop(hc, plan, col.wd, chooser, pickfn=lambda n, r=r: r.randrange(n))
+            ck.count()
+            bad = oracle(hc, plan, res)
+            if bad:
+                small, best = shrink(ck, col, hc, rng)
+                if best:
+                    ck.violation(replay_dict(small, best[0], best[1], kind="oracle-after-broken-obligation"))
+                else:
+                    ck.violation(replay_dict(hc, res, bad, kind="oracle-after-broken-obligation"))
+                return
+        if i % 10 == 0:
+            bad = soak(hc, plan, col.wd, rng, 20)
+            if bad:
+                ck.violation(replay_dict(hc, {"choices": None, "picks": None}, bad, kind="oracle-real-threads"))
+                return
+
+
+def replay(rp: dict) -> int:
+    import logging
+    logging.disable(logging.WARNING)
+    hc = rp.get("hc")
+    if hc is None:
+        print("replay names a broken obligation/correspondence, no concrete input:",
+              json.dumps(rp.get("broken"), indent=1)[:3000])
+        return 1
+    wd = os.path.join(common.SCRATCH_ROOT, f"replay-C09-{os.getpid()}")
+    try:
+        plan = reference(hc, wd)
+        if rp.get("choices") is None:
+            bad = soak(hc, plan, wd, random.Random(0), 300)
+            print(json.dumps({"hc": hc, "mode": "real threads x300", "failures": bad}, indent=1))
+            return 1 if bad else 0
+        picks = iter(rp.get("picks") or [])
+        res = run_coop(hc, plan, wd, replay_chooser(rp["choices"], first_chooser),
+                       pickfn=lambda n: min(next(picks, 0), n - 1))
+        bad = oracle(hc, plan, res)
+        print(json.dumps({"hc": hc, "schedule_steps": len(res["choices"]), "outcome": res["outcome"],
+                          "sched_outcome": res["sched_outcome"], "callbacks": res["cb_log"],
+                          "max_in_flight": res["max_inflight"], "max_materialised": res["max_materialised"],
+                          "failures": bad}, indent=1, default=str))
+        return 1 if bad else 0
+    finally:
+        shutil.rmtree(wd, ignore_errors=True)
